@@ -10,7 +10,7 @@ LEVEL = "proof"
 N_CASES = {"quick": 170, "thorough": 6000}
 EPS = 1e-3            # barycentric margin that defines "general position"
 RULE = ("meshes: box, slab with large faces, icosphere, block torus (genus 1), two bodies, each also under a random "
-        "rotation + translation (generic float64 coordinates) x batches of 6-14 rays: axis aligned, oblique, origins "
+        "rotation + translation (generic float64 coordinates) and in other units of length (x 1e-3, 1e-2, 1e3) x batches of 6-14 rays: axis aligned, oblique, origins "
         "inside the bounds, origins just past a face, rays from different origins converging on one surface point, "
         "duplicated rays; both engines (r-tree ray_triangle and embree); intersects_id / intersects_location / "
         "intersects_first / intersects_any, single and multiple hits; contains_points on batches with repeated "
@@ -21,7 +21,8 @@ RULE = ("meshes: box, slab with large faces, icosphere, block torus (genus 1), t
 TRUSTED = ["inside = odd number of crossings along a ray in general position (Jordan), evaluated by the model",
            "rtree / embree C libraries are exercised, not modelled",
            "float64 -> rational conversion by float.as_integer_ratio"]
-ASSUMPTIONS = ["queries within the margin of an edge, a vertex, the ray origin or the surface are out of scope (not judged)"]
+ASSUMPTIONS = ["queries within the margin of an edge, a vertex, the ray origin or the surface are out of scope (not judged)",
+               "mesh sizes from 1e-3 to 1e3: below that the engines' absolute tolerances (1e-8) reach the margin itself"]
 EXPLANATION = "Lean theorems C12_* about the exhaustive rational model + every judged query compared with it"
 
 _M = {}
@@ -59,7 +60,8 @@ def mesh(name):
     """'box' or 'box/r17' (rotated + translated by a matrix derived from the number)"""
     if name not in _M:
         import trimesh
-        b, _, r = name.partition("/r")
+        name0, _, sexp = name.partition("/s")
+        b, _, r = name0.partition("/r")
         m = _base(b).copy()
         if r:
             g = np.random.default_rng(int(r))
@@ -70,6 +72,8 @@ def mesh(name):
             T[:3, :3] = q
             T[:3, 3] = g.uniform(-2, 2, 3)
             m.apply_transform(T)
+        if sexp:
+            m.apply_scale(10.0 ** int(sexp))       # the same scene in another unit of length
         m = trimesh.Trimesh(np.array(m.vertices), np.array(m.faces), process=False)
         _M[name] = m
     return _M[name]
@@ -96,6 +100,8 @@ def cases(ctx):
         name = rng.choice(BASES)
         if rng.random() < 0.5:
             name += "/r%d" % rng.randrange(40)
+        if rng.random() < 0.3:
+            name += "/s%d" % rng.choice([-3, -3, -2, 3])
         m = mesh(name)
         lo, hi = m.bounds
         ctr, ext = (lo + hi) / 2, hi - lo
@@ -104,7 +110,8 @@ def cases(ctx):
         eng = rng.choice(["numpy", "embree"])
 
         def pt(f):
-            return [ _r(ctr[i] + rng.uniform(-f, f) * ext[i]) for i in range(3)]
+            return [float(ctr[i] + rng.uniform(-f, f) * ext[i]) if "/s" in name else _r(ctr[i] + rng.uniform(-f, f) * ext[i])
+                    for i in range(3)]
 
         def direction():
             k = rng.random()
@@ -262,7 +269,7 @@ def model_oracle(c, o, m):
     if "err" in m:
         raise RuntimeError(m["err"])
     k = c["kind"]
-    sc = max(1.0, o["scale"])
+    sc = o["scale"]          # tolerances and margins relative to the size of the mesh
 
     def bad(what, **kw):
         d = {"kind": k, "check": what}
